@@ -555,6 +555,448 @@ def r_sharedmut(prog, tier):
     return obs, {}
 
 
+# ------------------------------------------------------------------------------------ R-SHAREDTABLE
+
+_TABLE_MUTATORS = {'append', 'remove', 'pop', 'extend', 'insert', 'clear', 'sort', 'reverse', 'update', 'add', 'discard',
+                   'popleft', 'appendleft', 'setdefault', 'popitem'}
+
+
+def _module_tables(prog):
+    """{(module, NAME): lineno} of module-level names bound exactly once to a mutable display / constructor."""
+    out = {}
+    for mn, m in prog.modules.items():
+        counts = {}
+        for st in m.tree.body:
+            if isinstance(st, ast.Assign):
+                for t in st.targets:
+                    if isinstance(t, ast.Name):
+                        counts[t.id] = counts.get(t.id, 0) + 1
+        for st in m.tree.body:
+            if isinstance(st, ast.Assign) and len(st.targets) == 1 and isinstance(st.targets[0], ast.Name) \
+                    and counts.get(st.targets[0].id) == 1:
+                v = st.value
+                if isinstance(v, (ast.Dict, ast.List, ast.Set)) or (
+                        isinstance(v, ast.Call) and unparse(v.func).split('.')[-1] in ('dict', 'list', 'set', 'defaultdict',
+                                                                                       'Counter', 'OrderedDict', 'deque')):
+                    out[(mn, st.targets[0].id)] = st.lineno
+    return out
+
+
+def _live(f, derived, nm, at):
+    """The table that local nm may refer into at cfg node `at`: one of its table definitions reaches `at` unredefined."""
+    cfg = f.cfg
+    defs = set(d for (d, _) in name_defs(f, nm))
+    for (d, t) in derived.get(nm, ()):
+        start = cfg.entry if d == 'entry' else d
+        if at is None or at == start or at in cfg.reach(start, avoid=frozenset(defs - {d})):
+            return t
+    return None
+
+
+def _shared_ref(prog, f, e, tables, derived, at=None):
+    """The module-level table (or table-fed parameter) that expression e may refer into at cfg node `at`, or None.
+    Elements count (they are the same objects); copies (list(), dict(), sorted(), slices, comprehensions) do not."""
+    if isinstance(e, ast.Name):
+        if e.id in derived:
+            return _live(f, derived, e.id, at)
+        if e.id not in f.locals and e.id not in f.params and (f.module.name, e.id) in tables:
+            return '%s.%s' % (f.module.name, e.id)
+        return None
+    if isinstance(e, ast.Attribute) and isinstance(e.value, ast.Name) and e.value.id in f.module.aliases \
+            and e.value.id not in f.locals and (f.module.aliases[e.value.id], e.attr) in tables:
+        return '%s.%s' % (f.module.aliases[e.value.id], e.attr)
+    if isinstance(e, ast.Subscript) and not isinstance(e.slice, ast.Slice):
+        return _shared_ref(prog, f, e.value, tables, derived, at)
+    if isinstance(e, ast.Call) and isinstance(e.func, ast.Attribute) and e.func.attr == 'get' and e.args:
+        return _shared_ref(prog, f, e.func.value, tables, derived, at)
+    return None
+
+
+def _derived_locals(prog, f, tables, fed):
+    """{local: [(defining cfg node | 'entry', table)]}: the definitions that make a local (or a table-fed parameter)
+    refer into a shared table."""
+    derived = dict((f.params[i], [('entry', t)]) for (i, t) in fed.items() if i < len(f.params))
+    for _ in range(4):
+        grew = False
+        for nm in sorted(f.locals):
+            for (d, v) in name_defs(f, nm):
+                if any(d == d0 for (d0, _) in derived.get(nm, ())):
+                    continue
+                r = None
+                if isinstance(v, ast.AST):
+                    r = _shared_ref(prog, f, v, tables, derived, d)
+                elif isinstance(v, tuple) and v and v[0] == 'iter':
+                    it = v[1]
+                    if isinstance(it, ast.Call) and isinstance(it.func, ast.Attribute) and it.func.attr in ('values', 'items') \
+                            and not it.args:
+                        it = it.func.value
+                    r = _shared_ref(prog, f, it, tables, derived, d)
+                if r:
+                    derived.setdefault(nm, []).append((d, r))
+                    grew = True
+        if not grew:
+            break
+    return derived
+
+
+def _node_of(f, astnode):
+    """cfg node evaluating the given expression / statement (None: position unknown, every definition counts)."""
+    cfg = f.cfg
+    cache = getattr(f, '_expr_nodes', None)
+    if cache is None:
+        cache = {}
+        for m in cfg.eval_nodes():
+            if m.kind == 'stmt' and m.ast is not None:
+                cache.setdefault(id(m.ast), m.id)
+            for root in cfg.exprs(m.id):
+                for sub in ast.walk(root):
+                    cache.setdefault(id(sub), m.id)
+        try:
+            f._expr_nodes = cache
+        except Exception:
+            pass
+    return cache.get(id(astnode))
+
+
+def r_sharedtable(prog, tier):
+    """A table made once at module level (head rules, bracket names, default options) is changed in place through a
+    local name, an element or a parameter it was handed to: the change stays for the rest of the process, so what a call
+    does depends on the calls before it."""
+    obs = []
+    tables = _module_tables(prog)
+    funcs = [f for mod in MODULES if mod in prog.modules for f in sorted(prog.modules[mod].funcs.values(), key=lambda x: x.fq)]
+    fed = {}            # fq -> {param index: table}
+    found = {}
+    for _round in range(3):
+        grew = False
+        for f in funcs:
+            derived = _derived_locals(prog, f, tables, fed.get(f.fq, {}))
+            for c in walk_own(f.node):
+                if not isinstance(c, ast.Call) or c.keywords and any(k.arg is None for k in c.keywords):
+                    continue
+                if any(isinstance(a, ast.Starred) for a in c.args):
+                    continue
+                tgt = prog.callee(c, f)
+                g = prog.func(tgt[0], tgt[1], required=False) if tgt else None
+                if g is None or g.node.args.vararg or g.node.args.posonlyargs:
+                    continue
+                at = _node_of(f, c)
+                for i, a in enumerate(c.args):
+                    r = _shared_ref(prog, f, a, tables, derived, at)
+                    if r and i < len(g.params) and i not in fed.setdefault(g.fq, {}):
+                        fed[g.fq][i] = r
+                        grew = True
+                for k in c.keywords:
+                    r = _shared_ref(prog, f, k.value, tables, derived, at)
+                    if r and k.arg in g.params and g.params.index(k.arg) not in fed.setdefault(g.fq, {}):
+                        fed[g.fq][g.params.index(k.arg)] = r
+                        grew = True
+        if not grew:
+            break
+    n = 0
+    for f in funcs:
+        derived = _derived_locals(prog, f, tables, fed.get(f.fq, {}))
+        for x in walk_own(f.node):
+            hit = None
+            if isinstance(x, (ast.Assign, ast.AugAssign, ast.Delete)):
+                tg = x.targets if isinstance(x, (ast.Assign, ast.Delete)) else [x.target]
+                flat = []
+                for t in tg:
+                    flat.extend(t.elts if isinstance(t, (ast.Tuple, ast.List)) else [t])
+                for t in flat:
+                    if isinstance(t, ast.Subscript):
+                        r = _shared_ref(prog, f, t.value, tables, derived, _node_of(f, x))
+                        if r:
+                            hit = (r, x)
+            elif isinstance(x, ast.Call) and isinstance(x.func, ast.Attribute) and x.func.attr in _TABLE_MUTATORS:
+                r = _shared_ref(prog, f, x.func.value, tables, derived, _node_of(f, x))
+                if r:
+                    hit = (r, x)
+            if hit:
+                n += 1
+                r, x = hit
+                obs.append(Ob('R-SHAREDTABLE', f.fq, 'the module-level table `%s` is only read' % r, False,
+                              '`%s` (line %d) changes `%s` - or one of its entries - in place; the table is made once when the '
+                              'module is loaded, so the change is seen by every later call in the process'
+                              % (unparse(x)[:60], x.lineno, r), construct='sharedtable:%s:%s' % (r, unparse(x)[:50]),
+                              line=x.lineno))
+    obs.append(Ob('R-SHAREDTABLE', 'package', 'scan for in-place changes of module-level tables covered every function', True,
+                  '%d module-level tables, %d table-fed parameters, %d found' % (len(tables), sum(len(v) for v in fed.values()), n),
+                  construct='sharedtable-scan', nontrivial=False))
+    return obs, {}
+
+
+# ------------------------------------------------------------------------------------ R-ONESHOT
+
+_ONESHOT_MAKERS = ('filter', 'map', 'zip', 'iter', 'reversed', 'enumerate', 'itertools.chain', 'itertools.filterfalse',
+                   'itertools.islice', 'itertools.takewhile', 'itertools.dropwhile', 'itertools.starmap')
+
+
+def r_oneshot(prog, tier):
+    """A local holds a one-shot iterator (filter / map / zip / generator expression / a generator function of the
+    package) and is run through twice: the second run finds it exhausted and silently does nothing."""
+    obs = []
+    n = 0
+    for mod in MODULES:
+        if mod not in prog.modules:
+            continue
+        for f in sorted(prog.modules[mod].funcs.values(), key=lambda x: x.fq):
+            cfg = f.cfg
+            for nm in sorted(f.locals):
+                dv = name_defs(f, nm)
+                if len(dv) != 1 or not isinstance(dv[0][1], ast.AST) or nm in f.params:
+                    continue
+                dn, v = dv[0]
+                one = isinstance(v, ast.GeneratorExp) or (isinstance(v, ast.Call) and unparse(v.func) in _ONESHOT_MAKERS)
+                if not one and isinstance(v, ast.Call):
+                    tgt = prog.callee(v, f)
+                    g = prog.func(tgt[0], tgt[1], required=False) if tgt else None
+                    one = g is not None and any(isinstance(y, (ast.Yield, ast.YieldFrom)) for y in walk_own(g.node))
+                if not one:
+                    continue
+                # complete runs: `for x in nm`, a comprehension over nm, list(nm) / sorted(nm) / sum(nm) ...
+                runs = []
+                for m in cfg.eval_nodes():
+                    for root in cfg.exprs(m.id):
+                        for sub in ast.walk(root):
+                            if isinstance(sub, ast.comprehension) and isinstance(sub.iter, ast.Name) and sub.iter.id == nm:
+                                runs.append(m)
+                            if isinstance(sub, ast.Call) and isinstance(sub.func, ast.Name) and sub.func.id in (
+                                    'list', 'tuple', 'sorted', 'set', 'sum', 'max', 'min', 'len', 'dict', 'frozenset') \
+                                    and sub.args and isinstance(sub.args[0], ast.Name) and sub.args[0].id == nm:
+                                runs.append(m)
+                    if m.kind == 'iter' and isinstance(m.ast.iter, ast.Name) and m.ast.iter.id == nm:
+                        # a loop that can be left early (break / return) may leave something for a later run
+                        body_leaves = any(isinstance(y, (ast.Break, ast.Return)) for st_ in m.ast.body for y in ast.walk(st_))
+                        if not body_leaves:
+                            runs.append(m)
+                if len(runs) < 2:
+                    continue
+                other_uses = sum(1 for y in walk_own(f.node) if isinstance(y, ast.Name) and y.id == nm and isinstance(y.ctx, ast.Load))
+                if other_uses != len(runs):
+                    continue            # handed on, next()-ed or tested elsewhere: not modelled
+                for a in runs:
+                    for b in runs:
+                        if a is b or b.id not in cfg.reach(a.id, avoid=frozenset([dn])):
+                            continue
+                        if a.id in cfg.reach(b.id, avoid=frozenset([dn])) and a.lineno > b.lineno:
+                            continue
+                        n += 1
+                        obs.append(Ob('R-ONESHOT', f.fq, 'a one-shot iterator is run through once: `%s`' % nm, False,
+                                      '`%s = %s` (line %d) can be consumed only once; after the run at line %d the run at line %d '
+                                      'finds it exhausted and does nothing' % (nm, unparse(v)[:40], cfg.nodes[dn].lineno, a.lineno,
+                                                                               b.lineno),
+                                      construct='oneshot:%s:%s' % (nm, unparse(v)[:40]), line=b.lineno))
+                        break
+                    else:
+                        continue
+                    break
+    obs.append(Ob('R-ONESHOT', 'package', 'scan for one-shot iterators consumed twice covered every function', True,
+                  '%d found' % n, construct='oneshot-scan', nontrivial=False))
+    return obs, {}
+
+
+# ------------------------------------------------------------------------------------ R-LOOPRESET
+
+def r_loopreset(prog, tier):
+    """A collecting list / dict / set is created anew in every iteration of the very loop that fills it and read only
+    after that loop: what the earlier iterations collected is thrown away, only the last one is seen."""
+    obs = []
+    n = 0
+    for mod in MODULES:
+        if mod not in prog.modules:
+            continue
+        for f in sorted(prog.modules[mod].funcs.values(), key=lambda x: x.fq):
+            cfg = f.cfg
+            for nm in sorted(f.locals):
+                dv = name_defs(f, nm)
+                if len(dv) != 1 or not isinstance(dv[0][1], ast.AST) or nm in f.params:
+                    continue
+                dn, v = dv[0]
+                fresh = (isinstance(v, (ast.List, ast.Dict, ast.Set)) and not (getattr(v, 'elts', None) or getattr(v, 'keys', None))) \
+                    or (isinstance(v, ast.Call) and isinstance(v.func, ast.Name) and v.func.id in ('list', 'dict', 'set') and not v.args
+                        and not v.keywords)
+                dnode = cfg.nodes[dn]
+                if not fresh or not dnode.loops:
+                    continue
+                L = dnode.loops[-1]
+                if cfg.nodes[L].kind != 'iter' or not cfg.in_every_iteration(L, dn):
+                    continue
+                fills, reads_in, reads_after = [], [], []
+                for m in cfg.eval_nodes():
+                    for root in cfg.exprs(m.id):
+                        for sub in ast.walk(root):
+                            if not (isinstance(sub, ast.Name) and sub.id == nm and isinstance(sub.ctx, ast.Load)):
+                                continue
+                            inside = L in m.loops or m.id == L
+                            par = None
+                            for cand in ast.walk(root):
+                                if any(ch is sub for ch in ast.iter_child_nodes(cand)):
+                                    par = cand
+                            fill = isinstance(par, ast.Attribute) and par.attr in ('append', 'extend', 'add', 'update', 'insert')
+                            fill = fill or (isinstance(par, ast.Subscript) and isinstance(par.ctx, ast.Store))
+                            if fill and inside and m.loops and m.loops[-1] == L:
+                                fills.append(m)
+                            elif inside:
+                                reads_in.append(m)
+                            else:
+                                reads_after.append(m)
+                if not fills or reads_in or not reads_after:
+                    continue
+                if not all(dn in cfg.coreach(m_.id) and cfg.dominates(dn, m_.id) for m_ in fills):
+                    continue
+                n += 1
+                obs.append(Ob('R-LOOPRESET', f.fq, 'what the loop collects in `%s` is still there after the loop' % nm, False,
+                              '`%s = %s` (line %d) runs in every iteration of the loop at line %d that fills `%s` (`%s`, line %d); '
+                              '`%s` is read only after the loop (line %d): it holds what the last iteration put in, everything '
+                              'collected before is gone' % (nm, unparse(v), dnode.lineno, cfg.nodes[L].lineno, nm,
+                                                            unparse(fills[0].ast)[:40], fills[0].lineno, nm, reads_after[0].lineno),
+                              construct='loopreset:%s' % nm, line=dnode.lineno))
+    obs.append(Ob('R-LOOPRESET', 'package', 'scan for collections emptied by the loop that fills them covered every function', True,
+                  '%d found' % n, construct='loopreset-scan', nontrivial=False))
+    return obs, {}
+
+
+# ------------------------------------------------------------------------------------ R-WRONGCHECK
+
+def r_wrongcheck(prog, tier):
+    """`if 'k' not in A.data: raise ...` is followed by reads of B.data['k'] - never of A.data['k'] - with nothing that
+    shows the key on B: the check looks at the wrong node (it rejects good input and lets the bad one through to a KeyError)."""
+    obs = []
+    n = 0
+    for mod in MODULES:
+        if mod not in prog.modules:
+            continue
+        for f in sorted(prog.modules[mod].funcs.values(), key=lambda x: x.fq):
+            cfg = f.cfg
+            for t in cfg.nodes:
+                if t.kind != 'assume' or not isinstance(t.ast, ast.Compare) or len(t.ast.ops) != 1:
+                    continue
+                c = t.ast
+                absent = (isinstance(c.ops[0], ast.NotIn) and t.pol) or (isinstance(c.ops[0], ast.In) and not t.pol)
+                if not absent or not (isinstance(c.left, ast.Constant) and isinstance(c.left.value, str)):
+                    continue
+                cont = c.comparators[0]
+                if not (isinstance(cont, ast.Attribute) and cont.attr == 'data'):
+                    continue
+                key, A = c.left.value, unparse(cont.value)
+                # the absent branch raises at once
+                succ = [cfg.nodes[x] for x in cfg.succ[t.id]]
+                if not (len(succ) == 1 and succ[0].kind == 'stmt' and isinstance(succ[0].ast, ast.Raise)):
+                    continue
+                present = [m for m in cfg.nodes if m.kind == 'assume' and m.ast is t.ast and m.pol != t.pol]
+                if not present:
+                    continue
+                region = cfg.reach(present[0].id)
+                readsA, readsB = [], []
+                for m in cfg.eval_nodes():
+                    if m.id not in region:
+                        continue
+                    for root in cfg.exprs(m.id):
+                        for sub in ast.walk(root):
+                            if isinstance(sub, ast.Subscript) and isinstance(sub.ctx, ast.Load) and isinstance(sub.value, ast.Attribute) \
+                                    and sub.value.attr == 'data' and isinstance(sub.slice, ast.Constant) and sub.slice.value == key:
+                                (readsA if unparse(sub.value.value) == A else readsB).append((m, unparse(sub.value.value)))
+                if readsA or not readsB:
+                    continue
+                m0, B = readsB[0]
+                if not cfg.dominates(present[0].id, m0.id) or m0.loops != t.loops:
+                    continue
+                shown = any(fa[0] in ('in', 'haskey') and key in str(fa) and B in str(fa) for (fa, _) in facts_at(cfg, m0.id))
+                stores = any(isinstance(x, ast.Subscript) and isinstance(x.ctx, ast.Store) and isinstance(x.slice, ast.Constant)
+                             and x.slice.value == key and isinstance(x.value, ast.Attribute) and unparse(x.value.value) == B
+                             for x in walk_own(f.node))
+                storesA = any(isinstance(x, ast.Subscript) and isinstance(x.ctx, ast.Store) and isinstance(x.slice, ast.Constant)
+                              and x.slice.value == key and isinstance(x.value, ast.Attribute) and unparse(x.value.value) == A
+                              for x in walk_own(f.node))
+                # A made from B (a copy of its data, an alias) or the other way round: the check on one says something about the other
+                ra, rb = A.split('[')[0].split('.')[0], B.split('[')[0].split('.')[0]
+                related = False
+                for (x_, y_) in ((ra, rb), (rb, ra)):
+                    for (_, dv_) in name_defs(f, x_):
+                        if isinstance(dv_, ast.Name) and dv_.id == y_:
+                            related = True
+                        for c_ in (ast.walk(dv_) if isinstance(dv_, ast.AST) else ()):
+                            if isinstance(c_, ast.Call) and unparse(c_.func).split('.')[-1] in ('Tree', 'copy', 'deepcopy', 'dict') \
+                                    and any(isinstance(z_, ast.Name) and z_.id == y_ for a_ in c_.args for z_ in ast.walk(a_)):
+                                related = True
+                # the same for a list the node was put into (`split.append(Tree(subtree.data))` ... `split[-1]`)
+                for c_ in walk_own(f.node):
+                    if isinstance(c_, ast.Call) and isinstance(c_.func, ast.Attribute) and c_.func.attr in ('append', 'insert') \
+                            and unparse(c_.func.value) in (ra, rb):
+                        other_ = rb if unparse(c_.func.value) == ra else ra
+                        if any(isinstance(z_, ast.Name) and z_.id == other_ for a_ in c_.args for z_ in ast.walk(a_)):
+                            related = True
+                if shown or stores or storesA or related:
+                    continue
+                n += 1
+                obs.append(Ob('R-WRONGCHECK', f.fq, 'a key is checked on the node it is read from', False,
+                              '`%s%s` (line %d) rejects a node without %r on `%s`, but what is read next is `%s.data[%r]` (line %d) and '
+                              '`%s.data[%r]` never: input that is fine is refused when `%s` carries no %r, and a missing %r on `%s` '
+                              'gets through to a KeyError' % ('' if t.pol else 'not ', unparse(t.ast), t.lineno, key, A, B, key, m0.lineno,
+                                                             A, key, A, key, key, B),
+                              construct='wrongcheck:%s:%s:%s' % (key, A, B), line=t.lineno))
+    obs.append(Ob('R-WRONGCHECK', 'package', 'scan for key checks on another node than the one read covered every function', True,
+                  '%d found' % n, construct='wrongcheck-scan', nontrivial=False))
+    return obs, {}
+
+
+# ------------------------------------------------------------------------------------ R-STALESNAP
+
+def r_stalesnap(prog, tier):
+    """`v = buf.getvalue()` is a copy of what the buffer held at that moment; when the buffer is written to (or replaced)
+    afterwards and `v` is then used without being read again, `v` is short of what was written last."""
+    obs = []
+    n = 0
+    for mod in MODULES:
+        if mod not in prog.modules:
+            continue
+        for f in sorted(prog.modules[mod].funcs.values(), key=lambda x: x.fq):
+            cfg = f.cfg
+            for nm in sorted(f.locals):
+                dv = name_defs(f, nm)
+                snaps = [(d, v) for (d, v) in dv if isinstance(v, ast.Call) and isinstance(v.func, ast.Attribute)
+                         and v.func.attr == 'getvalue' and isinstance(v.func.value, ast.Name) and not v.args]
+                if not snaps or len(snaps) != len(dv):
+                    continue
+                ids = frozenset(d for (d, _) in dv)
+                bufs = set(v.func.value.id for (_, v) in snaps)
+                if len(bufs) != 1:
+                    continue
+                B = list(bufs)[0]
+                writes = [m for m in cfg.eval_nodes() if m.kind == 'stmt' and (
+                    (isinstance(m.ast, ast.Expr) and isinstance(m.ast.value, ast.Call) and isinstance(m.ast.value.func, ast.Attribute)
+                     and m.ast.value.func.attr in ('write', 'writelines') and unparse(m.ast.value.func.value) == B))]
+                uses = [m for m in cfg.eval_nodes() if m.id not in ids and any(
+                    isinstance(x, ast.Name) and x.id == nm and isinstance(x.ctx, ast.Load) for r in cfg.exprs(m.id) for x in ast.walk(r))]
+                hit = None
+                for (d, _) in snaps:
+                    after_def = cfg.reach(d, avoid=ids - {d})
+                    for w in writes:
+                        if w.id not in after_def:
+                            continue
+                        after_w = cfg.reach(w.id, avoid=ids)
+                        for u in uses:
+                            if u.id in after_w:
+                                hit = (d, w, u)
+                                break
+                        if hit:
+                            break
+                    if hit:
+                        break
+                if hit:
+                    d, w, u = hit
+                    n += 1
+                    obs.append(Ob('R-STALESNAP', f.fq, 'a copy of a buffer is not used after the buffer has moved on: `%s`' % nm, False,
+                                  '`%s = %s.getvalue()` (line %d) is taken before `%s` (line %d); `%s` is used at line %d without being '
+                                  'read again: the last piece written is missing from it' % (
+                                      nm, B, cfg.nodes[d].lineno, unparse(w.ast)[:40], w.lineno, nm, u.lineno),
+                                  construct='stalesnap:%s:%s' % (nm, B), line=u.lineno))
+    obs.append(Ob('R-STALESNAP', 'package', 'scan for buffer copies used after a later write covered every function', True,
+                  '%d found' % n, construct='stalesnap-scan', nontrivial=False))
+    return obs, {}
+
+
 def r_leakvar(prog, tier):
     """Inside an outer loop, the variable of a finished inner `for` loop is read after that loop and is bound nowhere
     else: it holds the leftover of the last inner iteration - or, when the inner loop did not run for this outer
@@ -637,6 +1079,7 @@ def r_leakvar(prog, tier):
 FIXTURE = {
     'transform': """
 from . import trees
+import io
 from collections import Counter
 def fx(tree, **params):
     keep = params['keep']
@@ -682,7 +1125,30 @@ def fx(tree, **params):
     for c in tree.children:
         table[c] = zero
         table[c]['x'] = len(c.children)
+    opts = _DEFAULTS
+    opts.update(params)
+    tiers = HEADS['np']
+    del tiers[0]
+    for c in tree.children:
+        names = []
+        names.append(c.data['label'])
+    tree.data['names'] = ' '.join(names)
+    if 'head' not in tree.data:
+        raise ValueError('heads not marked?')
+    if tree.children[0].data['head']:
+        pass
+    buf = io.StringIO()
+    got = buf.getvalue()
+    buf.write(lab)
+    tree.data['got'] = got
+    live = filter(None, tree.children)
+    for c in live:
+        c.data['a'] = 1
+    for c in live:
+        c.data['b'] = 1
     return tree
+_DEFAULTS = {}
+HEADS = {'np': [1, 2]}
 TRANSFORMATIONS = [fx]
 """,
     'treeinput': "INPUT_FORMATS = []\n",
@@ -727,3 +1193,8 @@ r_instr = _with_fixture('R-INSTR', r_instr)
 r_ordefault = _with_fixture('R-ORDEFAULT', r_ordefault)
 r_keycopy = _with_fixture('R-KEYCOPY', r_keycopy)
 r_sharedmut = _with_fixture('R-SHAREDMUT', r_sharedmut)
+r_sharedtable = _with_fixture('R-SHAREDTABLE', r_sharedtable)
+r_oneshot = _with_fixture('R-ONESHOT', r_oneshot)
+r_loopreset = _with_fixture('R-LOOPRESET', r_loopreset)
+r_wrongcheck = _with_fixture('R-WRONGCHECK', r_wrongcheck)
+r_stalesnap = _with_fixture('R-STALESNAP', r_stalesnap)
